@@ -31,7 +31,7 @@ Section Rev.
   (* a storage Create that fails does not report success *)
   Hypothesis Hhonest : forall x, dresp (SCreate x) <> SOk.
   Variable rn ns : string.
-  Notation wpA := (wpA kh dresp f).
+  Notation wpA := (wpA kh dresp f (fun _ => True)).
 
   Lemma created_post_cases x l0 cs0 l c e :
     created_post dresp f x l0 cs0 l c e ->
@@ -205,7 +205,7 @@ Section Rev.
   Lemma run_op_creates o l k0 :
     create_shape o (mx l) (creates (snd (run_op K kh dresp rn ns o f l k0))).
   Proof.
-    pose proof (wp_run_op K kh dresp f _ _ _ l k0 (op_R o l)) as H. cbv zeta in H.
+    pose proof (wp_run_op K kh dresp f _ _ _ _ l k0 (op_R o l) (fails_only_all K kh dresp f _ _)) as H. cbv zeta in H.
     unfold run_op.
     destruct (run K kh dresp f (op_prog rn ns o) (mkR l k0 0 0 false [])) as [s out].
     cbn [fst snd] in *. destruct H as [H1 H2].
